@@ -150,6 +150,10 @@ func (c03) Generate(r *core.Rng, run int, tier string) *core.History {
 		// a string literal holding a raw byte that is not valid UTF-8 (Latin-1 source): printed as \xNN, which must read back as that byte
 		texts = append(texts, core.Pick(r, []string{"cafe9 = \"caf\u2400E9\"", "println(\"\u2400FF\u2400E9 x\", len(\"\u2400FF\"))", "m9 = {\"k\u2400E9\": 1}"}))
 	}
+	if r.Bool(.2) {
+		// a comment followed by a statement that starts with a sign: the comment is not the left operand of that sign
+		texts = append(texts, core.Pick(r, []string{"// note\n-1\n[2]", "/* block */\n-2 + 5\n[3]", "// x = 1\n+4\n\"s\"", "y7 = 1 // trailing\n-3\n[y7]"}))
+	}
 	nEv := 6 + r.Intn(14)
 	for i := 0; i < nEv; i++ {
 		t := r.Intn(len(texts))
